@@ -12,6 +12,7 @@ COMMON_TB = [
 COMMON_ASSUME = [
     "the ecdsa back end is the one that runs here (pysecp256k1's native library is absent): the pysecp256k1 branches are dead in this configuration and NOT verified",
     "Python integers are mathematical (exact); no machine arithmetic is involved outside ripemd.py/bech32.py",
+    "U1: text inputs (mnemonic, passphrase, path strings) are well-formed Unicode without lone surrogate code points; for such input str.encode('utf-8') raises UnicodeEncodeError (the CLI then ends with a traceback, status 1 and no output), which the contracts do not model",
 ]
 
 
